@@ -97,11 +97,12 @@ std::string g_phase;
 void childWrite(const std::string& s) { if (g_resFd >= 0) { ssize_t r = write(g_resFd, s.data(), s.size()); (void)r; } }
 
 void childTerminate() {
-    std::string sig = g_mm && g_mm->lastRefusedBtN ? xalanFrames(g_mm->lastRefusedBt + 1, g_mm->lastRefusedBtN - 1, 5) : std::string("no-refused-allocation");
+    std::string sig = g_mm && g_mm->lastRefusedBtN ? responsibleFrames(g_mm->lastRefusedBt + 1, g_mm->lastRefusedBtN - 1, 2) : std::string("no-refused-allocation");
+    std::string full = g_mm && g_mm->lastRefusedBtN ? xalanFrames(g_mm->lastRefusedBt + 1, g_mm->lastRefusedBtN - 1, 8) : std::string();
     // where are we now (the terminate site): the current backtrace
     void* bt[32]; int n = backtrace(bt, 32);
     std::string here = xalanFrames(bt, n, 4);
-    childWrite("\nTERMINATE phase=" + g_phase + "\nREFUSED " + sig + "\nHERE " + here + "\n");
+    childWrite("\nTERMINATE phase=" + g_phase + "\nREFUSED " + sig + "\nHERE " + here + " refused allocation stack: " + full + "\n");
     _exit(79);
 }
 
@@ -142,7 +143,7 @@ void childMain(const Json& plan, int faultOp, uint64_t faultK, int resFd) {
         out["liveAfterDelete"] = (long long)sc.mm.liveBlocks;
         out["liveBytesAfterDelete"] = (long long)sc.mm.liveBytes;
         out["foreign"] = (long long)sc.mm.foreignFrees; out["double"] = (long long)sc.mm.doubleFrees; out["badfree"] = sc.mm.firstBadFree;
-        if (sc.mm.refused) out["refusedSite"] = xalanFrames(sc.mm.lastRefusedBt + 1, sc.mm.lastRefusedBtN - 1, 5);
+        if (sc.mm.refused) { out["refusedSite"] = responsibleFrames(sc.mm.lastRefusedBt + 1, sc.mm.lastRefusedBtN - 1, 2); out["refusedStack"] = xalanFrames(sc.mm.lastRefusedBt + 1, sc.mm.lastRefusedBtN - 1, 8); }
         // ---- recovery: a new transformer on the same manager must work and be balanced
         g_phase = "recovery";
         uint64_t liveBefore = sc.mm.liveBlocks;
@@ -285,8 +286,8 @@ struct C19 : public Driver {
             return;
         }
         const Json& r = c.res;
-        if (r.num("foreign2") > 0) { outcome["foreign-free"]++; viol("foreign-free", opName + ":" + r.str("refusedSite"), "pointer not allocated by this manager was deallocated through it"); return; }
-        if (r.num("double2") > 0) { outcome["double-free"]++; viol("double-free", opName + ":" + r.str("refusedSite"), r.str("badfree")); return; }
+        if (r.num("foreign2") > 0) { outcome["foreign-free"]++; viol("foreign-free", r.str("refusedSite"), "pointer not allocated by this manager was deallocated through it after refusing the allocation at " + r.str("refusedStack")); return; }
+        if (r.num("double2") > 0) { outcome["double-free"]++; viol("double-free", r.str("refusedSite"), r.str("badfree") + " after refusing the allocation at " + r.str("refusedStack")); return; }
         if (r.has("ubsan")) { outcome["ubsan"]++; viol("sanitizer:ubsan", r.at("ubsan").a[0].s, "UBSan report in child"); return; }
         if (fi < 0) {   // dry run: balance
             if (r.num("liveAfterDelete") != 0) { outcome["unbalanced"]++; viol("unbalanced", "fault-free:" + std::to_string(r.num("liveAfterDelete")), std::to_string(r.num("liveAfterDelete")) + " blocks (" + std::to_string(r.num("liveBytesAfterDelete")) + " bytes) still outstanding after the transformer's destructor in a fault-free run"); }
@@ -303,11 +304,11 @@ struct C19 : public Driver {
             else if (fo.num("status") != 0) { outcome["status"]++; if (fo.boolean("errEmpty")) viol("empty-error", "after-alloc-fail:" + opName, "non-zero status with empty error message"); }
             else {
                 outcome["absorbed"]++;
-                if (fo.str("out") != dop.str("out") && dop.num("status") == 0) viol("absorbed-wrong-output", opName + ":" + r.str("refusedSite"), "call reported success after a refused allocation but its output differs from the fault-free output");
+                if (fo.str("out") != dop.str("out") && dop.num("status") == 0) viol("absorbed-wrong-output", r.str("refusedSite"), "call reported success after a refused allocation but its output differs from the fault-free output");
             }
         } else outcome["in-destructor"]++;
         // recovery
-        if (r.boolean("recThrew") || r.num("recStatus") != 0 || r.str("recOut") != dry.str("recOut")) { outcome["recovery-failed"]++; viol("recovery-failed", opName + ":" + r.str("refusedSite"), "a new transformer on the same manager did not produce the expected output after the fault"); }
+        if (r.boolean("recThrew") || r.num("recStatus") != 0 || r.str("recOut") != dry.str("recOut")) { outcome["recovery-failed"]++; viol("recovery-failed", r.str("refusedSite"), "a new transformer on the same manager did not produce the expected output after the fault"); }
         else if (r.num("recLeak") != 0) { outcome["recovery-unbalanced"]++; viol("recovery-unbalanced", opName, "recovery transformer left blocks outstanding"); }
         if (r.num("liveAfterDelete") > 0) outcome["outstanding-after-fault(allowed)"]++;
     }
